@@ -46,14 +46,15 @@ class Case:
 
     def alias(self, pkg):
         """identifier under which package pkg is imported"""
-        return self.naming.get('alias:' + pkg, self.goname(pkg))
+        a = self.naming.get('alias:' + pkg, self.goname(pkg))
+        return 'b' if a == self.pkgname and pkg != 'a' else a
 
     # ---- packages -------------------------------------------------------
     def pkgs(self):
         if self.case.get('fam') == 'F':
             return ['a', 'b']
         if self.case.get('fam') == 'E':
-            return ['a', 'b'] if self.P['value']['home'] == 'b' else ['a']
+            return ['a', 'b'] if self.P['value']['home'] in ('b', 'bs') else ['a']
         s = {'a'}
         for a in self.P['atoms']:
             s.add(a['pkg'])
@@ -70,7 +71,10 @@ class Case:
         return self.dir + ("" if pkg == 'a' else "/" + pkg)
 
     def goname(self, pkg):
-        return self.pkgname if pkg == 'a' else (self.P.get('naming') or {}).get('pkg:' + pkg, pkg)
+        if pkg == 'a':
+            return self.pkgname
+        n = (self.P.get('naming') or {}).get('pkg:' + pkg, pkg)
+        return self.pkgname if n == '@same' else n
 
     # ---- types ----------------------------------------------------------
     def spell(self, atom):
@@ -626,6 +630,9 @@ def value_files(rc):
     e, home, marker = v['e'], v['home'], v['marker']
     expr = e['go'].replace('@', '')
     ty_home = e['sort'].replace('@', '')
+    same = home == 'bs'
+    if same:
+        home = 'b'
     ty_inj = e['sort'].replace('@', 'b.' if home == 'b' else '')
     if marker == 'InterfaceValue':
         item = 'wire.InterfaceValue(new(interface{}), %s)' % expr
@@ -636,7 +643,7 @@ def value_files(rc):
         homeexpr = expr
     pkg = rc.pkgname
     fs = {}
-    hp = pkg if home == 'a' else 'b'
+    hp = pkg if (home == 'a' or same) else 'b'
     fs[rc.pkgdir(home) + '/home.go'] = VALUE_HOME % {'pkg': hp, 'item': item, 'ty': ty_home, 'expr': homeexpr}
     q = '' if home == 'a' else 'b.'
     imp = '\t"github.com/google/wire"\n' + ('' if home == 'a' else '\tb "%s"\n' % rc.pkgpath('b'))
